@@ -8,11 +8,12 @@ typedef uint32_t value_type;
 typedef union IVStorage { value_type inline_buffer[N]; value_type* heap_buffer; } IVStorage;
 @STRUCT:IV@
 size_t g_allocs, g_k;
-static inline value_type* IV_NEW(size_t n) { g_allocs++; return (value_type*)malloc(n * sizeof(value_type)); }
+/* operator new[] never returns null (it throws std::bad_alloc before anything is modified: not modelled) */
+static inline value_type* IV_NEW(size_t n) { g_allocs++; value_type* p = (value_type*)malloc(n * sizeof(value_type)); __CPROVER_assume(p != NULL); return p; }
 #define OBJ_DELETE_ARR(p) free(p)
 #define ELEM(s, i) ((s)->_capacity == N ? (s)->_storage.inline_buffer[i] : (s)->_storage.heap_buffer[i])
 '''
-RULES = [(r'auto\s*\*\s*new_data\s*=\s*new\s+value_type\[new_capacity\]', 'value_type* new_data = IV_NEW(new_capacity)', '?'), (r'delete\[\]\s*([^;]+);', r'OBJ_DELETE_ARR(\1);', '?'),
+RULES = [(r'auto\s*\*\s*new_data\s*=\s*new\s+value_type\[new_capacity\](?:\(\))?', 'value_type* new_data = IV_NEW(new_capacity)', '?'), (r'delete\[\]\s*([^;]+);', r'OBJ_DELETE_ARR(\1);', '?'),
          (r'throw\s*\(\s*QuillError\s*\{.*?\}\s*\)\s*;', 'throw(QuillError{"x"});', '?')]
 
 push_inline = dict(
@@ -28,26 +29,68 @@ __CPROVER_ensures(RET == value && self->_size == OLD(self->_size) + 1 && self->_
 __CPROVER_ensures(self->_storage.inline_buffer[g_k] == OLD(self->_storage.inline_buffer[g_k])) /*@ C04 "earlier cached lengths keep their value and index" */
 __CPROVER_ensures(g_allocs == OLD(g_allocs) && g_exc == OLD(g_exc)) /*@ C04 "no heap allocation while the size cache is below its inline capacity" */
 ''')],
-    harness='  IV* v; value_type x; IV_push_back(v, x);', cbmc=['--unwind', '2', '--unwinding-assertions'],
+    harness='  IV* v; value_type x; IV_push_back(v, x);', cbmc=['--unwind', '2', '--unwinding-assertions'], snapshot=[('size', 'self->_size'), ('cap', 'self->_capacity'), ('k', 'g_k'), ('value', 'value')], replay=dict(template='iv.cpp', op='push_back'),
     dropped=['template instantiated at <uint32_t, 12> (SizeCacheVector)'], trusted=[], min_obligations=10,
     width_bounded='the two copy loops are unreachable under the precondition size < capacity: --unwind 2 with unwinding assertions is complete')
 
+GROW_LOOP = r"""
+__CPROVER_assigns(i, __CPROVER_object_whole(new_data))
+__CPROVER_loop_invariant(i <= self->_size && (g_k < i ==> new_data[g_k] == OLD_ELEM))
+__CPROVER_decreases(self->_size - i)
+"""
+GROW_PRELUDE = PRELUDE.replace('#define OBJ_DELETE_ARR(p) free(p)', r"""
+value_type* g_deleted; size_t g_deletes;
+#ifdef DELETE_GHOST
+/* delete[] recorded in ghosts instead of executed: free() after a loop contract does not finish in CBMC 6.11 (600 s);
+   the real free() is exercised by the bounded unit IV.push_back[grow24] */
+void DELETE_STUB(value_type* p) __CPROVER_assigns(g_deleted, g_deletes) __CPROVER_ensures(g_deleted == p && g_deletes == OLD(g_deletes) + 1);
+#define OBJ_DELETE_ARR(p) DELETE_STUB(p)
+#else
+#define OBJ_DELETE_ARR(p) do { g_deleted = (p); g_deletes++; free(p); } while (0)
+#endif
+""") + r"""
+value_type g_old_elem;   /* the element at the ghost index before the call */
+#define OLD_ELEM g_old_elem
+"""
+GROW_CONTRACT = r"""
+#ifdef GROW_INLINE
+__CPROVER_requires(__CPROVER_is_fresh(self, sizeof(*self)) && self->_capacity == N && self->_size == N && g_k < self->_size && g_exc == 0 && g_deletes == 0 && g_old_elem == self->_storage.inline_buffer[g_k])
+#else
+__CPROVER_requires(__CPROVER_is_fresh(self, sizeof(*self)) && self->_capacity >= HEAP_MIN && self->_capacity <= HEAP_MAX && __CPROVER_is_fresh(self->_storage.heap_buffer, self->_capacity * sizeof(value_type)) && self->_size == self->_capacity && g_k < self->_size && g_exc == 0 && g_deletes == 0 && g_old_elem == self->_storage.heap_buffer[g_k])
+#endif
+__CPROVER_assigns(self->_size, self->_capacity, self->_storage, g_allocs, g_exc, g_deleted, g_deletes)
+#if !defined(GROW_INLINE) && !defined(DELETE_GHOST)
+__CPROVER_frees(self->_storage.heap_buffer)
+#endif
+__CPROVER_ensures(RET == value && self->_size == OLD(self->_size) + 1 && self->_capacity == 2 * OLD(self->_capacity) && g_exc == 0 && g_allocs == OLD(g_allocs) + 1) /*@ C04 "a full size cache doubles its capacity (one allocation) and appends" */
+__CPROVER_ensures(self->_storage.heap_buffer[OLD(self->_size)] == value) /*@ C04 "the new length is stored at the next index" */
+__CPROVER_ensures(self->_storage.heap_buffer[g_k] == g_old_elem) /*@ C04 "growing keeps every cached length at its index" */
+#ifdef GROW_INLINE
+__CPROVER_ensures(g_deletes == 0)
+#else
+__CPROVER_ensures(g_deletes == 1 && g_deleted == OLD(self->_storage.heap_buffer))
+#endif
+"""
+GROW_FUNC = dict(src=dict(header=H, cls='InlinedVector', name='push_back'), struct='IV', src_params=['value'], cfun='IV_push_back', sig='value_type IV_push_back(IV* self, value_type value)',
+                 ret_default='0', pre_rules=RULES, contract=GROW_CONTRACT)
 push_grow = dict(
     name='IV.push_back[grow]', primary='C04', props={'C04'}, kind='L',
-    desc='InlinedVector<uint32_t,12>::push_back when full (inline -> heap, heap -> larger heap): every element is copied to the same index',
-    structs=[STRUCT], prelude=PRELUDE, enforce='IV_push_back', replace=[],
-    funcs=[dict(src=dict(header=H, cls='InlinedVector', name='push_back'), struct='IV', src_params=['value'], cfun='IV_push_back', sig='value_type IV_push_back(IV* self, value_type value)',
-                ret_default='0', pre_rules=RULES,
-                contract=r'''
-__CPROVER_requires(__CPROVER_is_fresh(self, sizeof(*self)) && (self->_capacity == N || (self->_capacity == 2 * N && __CPROVER_is_fresh(self->_storage.heap_buffer, 2 * N * sizeof(value_type)))) && self->_size == self->_capacity && g_k < self->_size && g_exc == 0)
-__CPROVER_assigns(self->_size, self->_capacity, self->_storage, g_allocs, g_exc)
-__CPROVER_frees(self->_storage.heap_buffer)
-__CPROVER_ensures(RET == value && self->_size == OLD(self->_size) + 1 && self->_capacity == 2 * OLD(self->_capacity) && g_exc == 0) /*@ C04 "a full size cache doubles its capacity and appends" */
-__CPROVER_ensures(self->_storage.heap_buffer[OLD(self->_size)] == value) /*@ C04 "the new length is stored at the next index" */
-''')],
-    harness='  IV* v; value_type x; IV_push_back(v, x);', cbmc=['--unwind', '26', '--unwinding-assertions'],
-    bounded=dict(bound='capacity 12 (inline) or 24 (first heap buffer)', form='a'),
-    dropped=['template instantiated at <uint32_t, 12>'], trusted=['operator new[] = malloc'], min_obligations=10)
+    desc='InlinedVector<uint32_t,12>::push_back when full (inline -> heap, heap -> larger heap of any capacity): capacity doubles and every cached length is copied to the same index (loop contracts, ghost index)',
+    structs=[STRUCT], prelude=GROW_PRELUDE, enforce='IV_push_back', replace=['DELETE_STUB'], loopcontracts=True,
+    funcs=[dict(GROW_FUNC, loops={('all', r'size_t i = 0; i < (?:self->)?_size'): GROW_LOOP})],
+    harness='  IV* v; value_type x; IV_push_back(v, x);', snapshot=[('size', 'self->_size'), ('cap', 'self->_capacity'), ('k', 'g_k'), ('value', 'value')], replay=dict(template='iv.cpp', op='push_back'),
+    variants=[dict(name='inline', defs=['GROW_INLINE', 'DELETE_GHOST', 'HEAP_MIN=0', 'HEAP_MAX=0']), dict(name='heap', defs=['DELETE_GHOST', 'HEAP_MIN=13', 'HEAP_MAX=1024'])],
+    dropped=['template instantiated at <uint32_t, 12>', 'delete[] recorded in ghosts (which pointer, how often) instead of executed'],
+    trusted=['operator new[] = malloc assumed non-null (a failing new[] throws std::bad_alloc before anything is modified - not modelled)'],
+    assumes=['heap capacity <= 1024 elements when growing heap -> heap (object size bound for the pointer obligations; the loop is closed by its contract, not unwound)'], min_obligations=10, timeout=600)
+push_grow24 = dict(
+    name='IV.push_back[grow24]', primary='C04', props={'C04'}, kind='L',
+    desc='InlinedVector<uint32_t,12>::push_back, first heap -> heap growth (capacity 24) with the real free(): no use of the old buffer after delete[]',
+    structs=[STRUCT], prelude=GROW_PRELUDE, enforce='IV_push_back', replace=[],
+    funcs=[GROW_FUNC], harness='  IV* v; value_type x; IV_push_back(v, x);', cbmc=['--unwind', '26', '--unwinding-assertions'], snapshot=[('size', 'self->_size'), ('cap', 'self->_capacity'), ('k', 'g_k'), ('value', 'value')], replay=dict(template='iv.cpp', op='push_back'),
+    variants=[dict(name='cap24', tier='thorough', defs=['HEAP_MIN=24', 'HEAP_MAX=24'])],
+    bounded=dict(bound='capacity exactly 24 (the first heap buffer), loops unwound 26 times', form='a'),
+    dropped=['template instantiated at <uint32_t, 12>'], trusted=['operator new[] = malloc assumed non-null'], min_obligations=10, timeout=900)
 
 index = dict(
     name='IV.index', primary='C04', props={'C04'}, kind='L',
@@ -73,4 +116,4 @@ __CPROVER_assigns(self->_size)
 __CPROVER_ensures(self->_size == 0 && self->_capacity == OLD(self->_capacity)) /*@ C04 "the size cache is emptied before the size pass of a statement with cached lengths" */
 ''')],
     harness='  IV* v; IV_clear(v);', dropped=[], trusted=[], min_obligations=3)
-UNITS = [push_inline, index, clear]   # push_grow (inline->heap growth) is not covered: union + conditional heap object did not verify in reasonable time
+UNITS = [push_inline, push_grow, push_grow24, index, clear]
